@@ -432,36 +432,37 @@ theorem runHist_trusted (check : K → Option C → C → Bool) (hlaw : StaleSou
 
 /-! ### the concrete check and its stale-memo law -/
 
-/-- `check` of the step model instantiated with the decision model: the key determines the declared hashes
-    (they are part of the rule hash), the contents determine the output list. -/
-def concreteCheck (uf : UFacts) (cf : CFacts) (env : Env O D) (isFile : O → Bool) (cfg : Algo) (checkers : List Algo)
-    (hashesOf : K → List Str) (outsOf : C → List O) : K → Option C → C → Bool :=
+/-- `check` of the step model instantiated with the decision model: the key determines the declared hashes (they are
+    part of the rule hash), the hash function (path hashes of the sources are taken with it) and the checkers (written
+    into the rule hash of every target that declares hashes); the contents determine the output list. -/
+def concreteCheck (uf : UFacts) (cf : CFacts) (env : Env O D) (isFile : O → Bool) (cfgOf : K → Algo)
+    (checkersOf : K → List Algo) (hashesOf : K → List Str) (outsOf : C → List O) : K → Option C → C → Bool :=
   fun k memo c =>
-    (calcAndCheck uf cf env isFile cfg checkers {} (hashesOf k) (outsOf c)
-      (memo.bind fun m => targetOutputHash env isFile cfg (outsOf m))).isSome
+    (calcAndCheck uf cf env isFile (cfgOf k) (checkersOf k) {} (hashesOf k) (outsOf c)
+      (memo.bind fun m => targetOutputHash env isFile (cfgOf k) (outsOf m))).isSome
 
 omit [DecidableEq K] [DecidableEq C] in
-theorem concreteCheck_none (uf : UFacts) (cf : CFacts) (env : Env O D) (isFile : O → Bool) (cfg : Algo)
-    (checkers : List Algo) (hashesOf : K → List Str) (outsOf : C → List O) (k : K) (c : C) :
-    concreteCheck uf cf env isFile cfg checkers hashesOf outsOf k none c =
-      accepts uf cf env isFile cfg checkers (hashesOf k) (outsOf c) := rfl
+theorem concreteCheck_none (uf : UFacts) (cf : CFacts) (env : Env O D) (isFile : O → Bool) (cfgOf : K → Algo)
+    (checkersOf : K → List Algo) (hashesOf : K → List Str) (outsOf : C → List O) (k : K) (c : C) :
+    concreteCheck uf cf env isFile cfgOf checkersOf hashesOf outsOf k none c =
+      accepts uf cf env isFile (cfgOf k) (checkersOf k) (hashesOf k) (outsOf c) := rfl
 
 omit [DecidableEq K] [DecidableEq C] in
-theorem concreteCheck_staleSound (uf : UFacts) (env : Env O D) (isFile : O → Bool) (cfg : Algo)
-    (checkers : List Algo) (hashesOf : K → List Str) (outsOf : C → List O)
-    (htot : ∀ c, (targetOutputHash env isFile cfg (outsOf c)).isSome = true) :
-    StaleSound (concreteCheck uf .asCoded env isFile cfg checkers hashesOf outsOf) := by
+theorem concreteCheck_staleSound (uf : UFacts) (env : Env O D) (isFile : O → Bool) (cfgOf : K → Algo)
+    (checkersOf : K → List Algo) (hashesOf : K → List Str) (outsOf : C → List O)
+    (htot : ∀ k c, (targetOutputHash env isFile (cfgOf k) (outsOf c)).isSome = true) :
+    StaleSound (concreteCheck uf .asCoded env isFile cfgOf checkersOf hashesOf outsOf) := by
   intro k m c hm hc
-  obtain ⟨hmv, hmE⟩ := Option.isSome_iff_exists.mp (htot m)
-  obtain ⟨hcv, hcE⟩ := Option.isSome_iff_exists.mp (htot c)
+  obtain ⟨hmv, hmE⟩ := Option.isSome_iff_exists.mp (htot k m)
+  obtain ⟨hcv, hcE⟩ := Option.isSome_iff_exists.mp (htot k c)
   simp only [concreteCheck, calcAndCheck, Option.bind_none, Option.bind_some, hmE, hcE, Bool.or_false, Bool.not_true] at hm hc ⊢
-  have im := checkRuleHashes_ok_iff uf env (hashesOf k) (outsOf m) hmv checkers
-  have ic := checkRuleHashes_ok_iff uf env (hashesOf k) (outsOf c) hmv checkers
-  have ic' := checkRuleHashes_ok_iff uf env (hashesOf k) (outsOf c) hcv checkers
-  by_cases h1 : (checkRuleHashes uf CFacts.asCoded env (hashesOf k) (outsOf m) hmv checkers).1.isOk = true
+  have im := checkRuleHashes_ok_iff uf env (hashesOf k) (outsOf m) hmv (checkersOf k)
+  have ic := checkRuleHashes_ok_iff uf env (hashesOf k) (outsOf c) hmv (checkersOf k)
+  have ic' := checkRuleHashes_ok_iff uf env (hashesOf k) (outsOf c) hcv (checkersOf k)
+  by_cases h1 : (checkRuleHashes uf CFacts.asCoded env (hashesOf k) (outsOf m) hmv (checkersOf k)).1.isOk = true
   · simp [h1] at hm
-  · by_cases h2 : (checkRuleHashes uf CFacts.asCoded env (hashesOf k) (outsOf c) hmv checkers).1.isOk = true
-    · have h3 : (checkRuleHashes uf CFacts.asCoded env (hashesOf k) (outsOf c) hcv checkers).1.isOk = true := by
+  · by_cases h2 : (checkRuleHashes uf CFacts.asCoded env (hashesOf k) (outsOf c) hmv (checkersOf k)).1.isOk = true
+    · have h3 : (checkRuleHashes uf CFacts.asCoded env (hashesOf k) (outsOf c) hcv (checkersOf k)).1.isOk = true := by
         apply ic'.mpr
         rcases ic.mp h2 with h | ⟨d, hd, h⟩
         · exact Or.inl h
